@@ -143,6 +143,12 @@ def gen_ecp(rng, maxl=None):
         n = rng.randrange(1, 4)
         pots.append(dict(ecp_type='scalar_ecp', angular_momentum=[l], r_exponents=[rng.choice([0, 1, 2]) for _ in range(n)],
                          gaussian_exponents=[num(rng, -1, 3) for _ in range(n)], coefficients=[[num(rng, -2, 3, neg=True) for _ in range(n)]]))
+    if rng.random() < 0.3:
+        # the placeholder the store uses: the highest momentum has a single term with a zero coefficient
+        top = pots[-1]
+        top['r_exponents'] = [2]
+        top['gaussian_exponents'] = ['1.0000000']
+        top['coefficients'] = [['0.0000000']]
     rng.shuffle(pots)
     return pots, rng.choice([2, 10, 18, 28, 36, 46, 60, 78])
 
